@@ -29,8 +29,9 @@ class Var:
 
 
 class Sub:
-    def __init__(self, sid, name, params, ret, body=None):
+    def __init__(self, sid, name, params, ret, body=None, decl=None):
         self.sid, self.name, self.params, self.ret, self.body = sid, name, params, ret, body
+        self.decl = decl or ret      # declared return type (ANY: TealType.anytype; `ret` is the kind every return really has)
         # params: list of (kind 'val'|'ref', Var)  -- Var is the model-side parameter cell
 
     def __repr__(self):
@@ -473,7 +474,7 @@ class Builder:
         exec(compile(src, fname, "exec", dont_inherit=True), g)
         fn = g["fn"]
         fn.__name__ = s.name
-        return pt.Subroutine(TT[s.ret], name=s.name)(fn)
+        return pt.Subroutine(TT[getattr(s, 'decl', s.ret)], name=s.name)(fn)
 
     def v(self, var: Var):
         return self.vars[var.uid]
